@@ -95,9 +95,6 @@ type RangeIter struct {
 	s   string
 }
 
-type waiter struct {
-	g *Gor
-}
 
 func basicWidth(b *types.Basic) (w int, signed bool, ok bool) {
 	switch b.Kind() {
